@@ -28,10 +28,13 @@ def _worker(task):
         name = "%s|%s|%s" % (kind, strategy_name(args), hl)
         extra = dict(item.get("extra", {}))
         if generic:
+            gs = item.get("gstrat")
+            if gs:
+                name = "json|%s" % ",".join("%s=%s" % kv for kv in sorted(gs.items()))
             run, merged, dec = mergedrv.run_generic(base, local, remote, name, extra=extra,
-                                                    snapshot=opts.get("snapshot", False))
+                                                    snapshot=opts.get("snapshot", False), gstrat=gs)
             if item.get("sym") and "raised" not in run:
-                sw, _, _ = mergedrv.run_generic(base, remote, local, name + "|sw")
+                sw, _, _ = mergedrv.run_generic(base, remote, local, name + "|sw", gstrat=gs)
                 run["sw"] = {k: sw[k] for k in ("raised", "D", "merged") if k in sw}
             ev["runs"].append(run)
             continue
